@@ -106,6 +106,7 @@ var propFlavour = map[string]string{
 // build flavour (a third of the budget).
 var extraFlavour = map[string]string{
 	"C13": "P",
+	"C12": "P",
 }
 
 func goEnv() []string {
